@@ -343,11 +343,14 @@ def run(res):
                                  differences=len(corr))
     cov["site_list"] = {"locations": facts["locations"], "locks": facts["locks"], "sites": len(sites),
                         "host_only_sites": [s["pos"] + " " + s["func"] for s in facts.get("host_only_sites") or []],
-                        "entry_locksets": facts.get("entry_locksets"), "code_mutators": facts.get("compiler_mutating_methods")}
+                        "entry_locksets": facts.get("entry_locksets"), "code_mutators": facts.get("compiler_mutating_methods"),
+                        "package_level_objects": facts.get("package_level_objects")}
     res.assumptions += [
         "the must-lock analysis of c09gen (go/ast, intra-procedural lock tracking + intersection over static callers, documented in "
         "harness/cmd/c09gen/main.go) is part of the trusted base; the race-report cross-check validates it on every observed race",
         "Go's sync.Mutex / sync.RWMutex meet the modelled semantics; the race detector and real interleavings are run-time evidence",
+        "methods of the package-level singleton objects (coverage.site_list.package_level_objects: object.Nil/True/False, the "
+        "disassembler's colour objects) do not mutate them; state reached only through method calls on such objects is not tracked",
         "host configuration setters (errz.SetTypeErrorsAreFatal, os.SetScriptArgs, internal/color.Enable/DisableColors) are not called "
         "while evaluations run",
     ]
